@@ -243,6 +243,9 @@ def run_case(case):
         sub = {"path": path}
         if len(agg["sample"]) < 2:
             agg["sample"].append({"answers": ["%s:%s" % (t[0], t[1][t[2]]) for t in env.trace], "outcome": outcome})
+        if SA.operands_modified(env):
+            agg["violations"].append({"sub": sub, "what": "%s modified one of its operand contracts in place" % op})
+            return
         if outcome.startswith("escaped"):
             agg["violations"].append({"sub": sub, "what": "%s escaped from %s: %s" % (outcome[8:], op, str(res)[:160])})
             return
